@@ -92,7 +92,13 @@ impl<'de> serde::Deserialize<'de> for TimeTriggerInterval {
             where
                 E: de::Error,
             {
-                Ok(TimeTriggerInterval::Second(v as i64))
+                match i64::try_from(v) {
+                    Ok(v) => Ok(TimeTriggerInterval::Second(v)),
+                    Err(_) => Err(E::invalid_value(
+                        de::Unexpected::Unsigned(v),
+                        &"a number of seconds no larger than i64::MAX",
+                    )),
+                }
             }
 
             fn visit_i64<E>(self, v: i64) -> Result<TimeTriggerInterval, E>
